@@ -64,6 +64,15 @@ def install_hooks():
     return monitor.wrap_method(BlackbirdErrorListener, "syntaxError", mk)
 
 
+def encodable(text):
+    """Can the text be stored in a (UTF-8) file?  Lone surrogates cannot."""
+    try:
+        text.encode("utf-8")
+        return True
+    except UnicodeEncodeError:
+        return False
+
+
 def shipped_syntax_errors(text):
     """Independent run of the shipped lexer+parser with a counting listener."""
     import antlr4
@@ -183,7 +192,7 @@ def check_text(ctx, text, tags=(), base=None, via_load=False):
         d = tempfile.mkdtemp(prefix="bbv-c10-")
         path = os.path.join(d, "s.xbb")
         try:
-            with open(path, "w", encoding="ascii", newline="") as f:
+            with open(path, "w", encoding="utf-8", newline="") as f:
                 f.write(text)
             try:
                 prog = blackbird.load(path)
@@ -241,10 +250,10 @@ def check_text(ctx, text, tags=(), base=None, via_load=False):
     # the same text as an *included* file: what load() reads is the script and the
     # files it includes, so an ungrammatical include must end the same way
     # (position not compared: it refers to the included file)
-    if text.isascii() and int(hashlib.sha1(text.encode()).hexdigest()[:2], 16) < 20:
+    if encodable(text) and int(hashlib.sha1(text.encode()).hexdigest()[:2], 16) < 20:
         d = tempfile.mkdtemp(prefix="bbv-c10i-")
         try:
-            with open(os.path.join(d, "inc.xbb"), "w", encoding="ascii", newline="") as f:
+            with open(os.path.join(d, "inc.xbb"), "w", encoding="utf-8", newline="") as f:
                 f.write(text)
             with open(os.path.join(d, "main.xbb"), "w", encoding="ascii", newline="") as f:
                 f.write('name m\nversion 1.0\ninclude "inc.xbb"\n\nVac | 0\n')
@@ -278,7 +287,7 @@ def run(ctx):
     bases = list(BASES) + [e["text"] for e in common.corpus(ID) if e.get("base")]
     if ctx.worker == 0:
         for e in common.corpus(ID):
-            check_text(ctx, e["text"], tags=["corpus"])
+            check_text(ctx, e["text"], tags=["corpus"], via_load=bool(e.get("via_load")))
         for b in bases:
             check_text(ctx, b, tags=["base"])
     total = ctx.share(BUDGET[ctx.tier])
@@ -303,7 +312,7 @@ def run(ctx):
             # token soup
             n = rng.randint(1, 25)
             text = " ".join(pick(rng, samples, g.token_names) for _ in range(n))
-            check_text(ctx, text, tags=["soup:tokens"], via_load=rng.random() < 0.1 and text.isascii())
+            check_text(ctx, text, tags=["soup:tokens"], via_load=rng.random() < 0.1 and encodable(text))
             done += 1
             continue
         if c < 0.2:
@@ -328,7 +337,7 @@ def run(ctx):
         if not toks:
             continue
         for (kind, t) in mutants(rng, g, base, toks, samples, 6):
-            check_text(ctx, t, tags=[kind], base=base, via_load=rng.random() < 0.1 and t.isascii())
+            check_text(ctx, t, tags=[kind], base=base, via_load=rng.random() < 0.1 and encodable(t))
             done += 1
             if rng.random() < 0.08:
                 # the same text with a uniform left margin of spaces on every line (1-3 and 5 spaces are skipped by the
